@@ -9,11 +9,13 @@ import impl as implmod
 PROP = "C16"
 TRACK_GLOBALS = True       # run.py records which case changed a module/class-level table
 CONSTS = ['mem']          # constant tables of the models this property depends on
-RULE = ("programs (RISC-V both modes with random data/instruction cache configurations, TOY images) stepped with random subsets "
-        "and repetitions of ALL read-only inspection functions (register/memory/instruction/cache tables, cache statistics, SVG "
-        "update lists, metrics text, output, exit code, done, has-instructions) between steps; the model treats them as no-ops, the "
-        "deep snapshot after every step exposes any mutation; oracle = same run without the calls; non-trivial = >=3 steps with "
-        ">=3 inspection calls; distinct = distinct (program, configuration, call interleaving)")
+RULE = ("programs (RISC-V both modes with random data/instruction cache configurations, TOY images, TOY forward-branch programs "
+        "with half-cycle calls) stepped with random subsets and repetitions of ALL read-only inspection functions (register/memory/"
+        "instruction/cache tables, cache statistics, SVG update lists, metrics text, output, exit code, done, has-instructions) between "
+        "steps; the model treats them as no-ops; oracle = same run without the calls (step answers, final views, repeatability), "
+        "each of two chosen inspection calls re-run with all earlier inspection calls left out (same answer required), hidden-state "
+        "and process-wide table changes followed up until an observable effect is found (never reported by themselves); "
+        "non-trivial = >=3 steps with >=3 inspection calls; distinct = distinct (program, configuration, call interleaving)")
 ASSUMPTIONS = ["wall-clock fields of the metrics text (execution time, instructions per second) are excluded from comparison"]
 
 
